@@ -26,6 +26,7 @@ PAYLOADS = {
     "dq": 'cA"cB', "sq": "cA'cB", "tdq": 'cA"""cB', "tsq": "cA'''cB", "bs_dq": 'cA\\"cB', "bs_sq": "cA\\'cB", "trail_bs": "cAcB\\",
     "bsbs_dq": 'cA\\\\"cB', "nl": "cA\ncB", "cr": "cA\rcB", "brace": "cA{cB}", "lbrace": "cA{cB", "rbrace": "cA}cB", "fmt0": "cA{0}cB",
     "hash": "cA#cB", "doc_inject": 'cA"""+%s()+"""cB' % MARK, "str_inject": 'cA"+%s()+"cB' % MARK, "sstr_inject": "cA'+%s()+'cB" % MARK,
+    "qdq": 'cA""""cB', "q5dq": 'cA"""""cB', "q7dq": 'cA"""""""cB', "trail_qdq": 'cAcB""""',      # runs of quotes whose length is not a multiple of three
     "esc_n": "cA\\ncB", "esc_x": "cA\\x41cB", "trail_dq": 'cAcB"', "toml_ml": 'cA"""\n[x]\ny="""cB',
 }
 PAIR_PAYLOADS = ["tdq", "doc_inject", "str_inject", "trail_bs"]
